@@ -239,3 +239,105 @@ Qed.
 
 Lemma reachable_keys_local st : reachable st -> keys_local (s_tree st) = true.
 Proof. induction 1; [reflexivity|eapply step_keys_local; eauto]. Qed.
+
+(* ------------------------------------------------------------------ instances stay valid *)
+Lemma reaches_inv st st' : Inv st -> reaches st st' -> Inv st'.
+Proof. intros I H. induction H; [exact I|]. eapply step_inv; [apply IHreaches; exact I|eassumption]. Qed.
+
+Lemma reaches_persist_inv st st' : Inv st -> reaches st st' -> persist st st'.
+Proof.
+  intros I H. induction H; [apply persist_refl|].
+  eapply persist_trans; [now apply IHreaches|].
+  eapply step_persist; eauto. eapply reaches_inv; eauto.
+Qed.
+
+(* every value an instance holds names an enabled field and is bounded by that field's max_value *)
+Definition inst_valid (st : state) (fv : fvals) : Prop :=
+  forall i x, zassoc i fv = Some x ->
+    exists fid p, get_field (s_tree st) i fv = Some fid /\ In (p, (i, fid)) (entries (s_tree st))
+                  /\ 0 <= x <= f_max (sget (s_store st) fid).
+
+Lemma enabled_names_unique t n fv i f1 f2 :
+  wf_tree t n -> In (i, f1) (enabled_fields t fv) -> In (i, f2) (enabled_fields t fv) -> f1 = f2.
+Proof.
+  intros W H1 H2. apply enabled_flat0 in H1, H2. destruct H1 as [p1 [H1 E1]], H2 as [p2 [H2 E2]].
+  apply (wf_names _ _ W (p1, (i, f1)) (p2, (i, f2))); auto.
+  simpl. eapply enabled_both_compat; eauto.
+Qed.
+
+Lemma inst_valid_persist st st' fv :
+  Inv st' -> persist st st' -> inst_valid st fv -> inst_valid st' fv.
+Proof.
+  intros [W' _] [_ HP] HV i x Hz. destruct (HV i x Hz) as [fid [p [Hg [Hp Hx]]]].
+  destruct (HP _ Hp) as [Hp' [Hmax _]]. unfold e_fid in Hmax. simpl in Hmax.
+  exists fid, p. split; [|split; [exact Hp'|lia]].
+  apply get_field_enabled in Hg. apply enabled_flat0 in Hg. destruct Hg as [q [Hq Eq]].
+  destruct (HP _ Hq) as [Hq' _].
+  assert (Hen : In (i, fid) (enabled_fields (s_tree st') fv)) by (apply enabled_flat0; eauto).
+  destruct (enabled_get_field _ _ _ _ Hen) as [f' Hf']. rewrite Hf'. f_equal.
+  eapply enabled_names_unique; eauto. now apply get_field_enabled.
+Qed.
+
+Definition insts_valid (st : state) : Prop := forall fv, In fv (s_insts st) -> inst_valid st fv.
+
+Lemma step_insts_valid st o st' r :
+  Inv st -> insts_valid st -> step st o = (st', r) -> insts_valid st'.
+Proof.
+  intros HI HV H. pose proof (step_inv _ _ _ _ HI H) as HI'. pose proof (step_persist _ _ _ _ HI H) as HP.
+  destruct o; simpl in H;
+    try (inversion H; subst; exact HV).
+  - destruct (add_field st (inst_fv st inst) i len start tags) as [s1 e1] eqn:E.
+    inversion H; subst s1 r. clear H.
+    assert (Hins : s_insts st' = s_insts st).
+    { unfold add_field, add_field_gen in E.
+      destruct (match len with Some l => l <=? 0 | None => false end); [inversion E; reflexivity|].
+      destruct (match start with Some s => range_bad false (s_len st) s len | None => false end);
+        [inversion E; reflexivity|].
+      match type of E with (if ?c then _ else _) = _ => destruct c end; [inversion E; reflexivity|].
+      destruct (tree_add _ _ _ _); try (inversion E; reflexivity).
+      destruct (get_field_requirements _ _ _); [destruct (propagate_tags _ _ _ _ _)|]; inversion E; reflexivity. }
+    intros fv Hfv. rewrite Hins in Hfv. eapply inst_valid_persist; eauto.
+  - destruct (call st (inst_fv st inst) kw) as [s1 e1] eqn:E.
+    inversion H; subst s1 r. clear H.
+    destruct e1 as [k|].
+    + assert (st' = st).
+      { unfold call in E. match type of E with (if ?c then _ else _) = _ => destruct c end; [now inversion E|].
+        destruct (call_check _ _ _ _); now inversion E. }
+      subst st'. exact HV.
+    + intros fv Hfv.
+      assert (Hins : s_insts st' = s_insts st ++ [kw ++ inst_fv st inst]).
+      { unfold call in E. match type of E with (if ?c then _ else _) = _ => destruct c end; [discriminate|].
+        destruct (call_check _ _ _ _); [discriminate|]. now inversion E. }
+      rewrite Hins in Hfv. apply in_app_or in Hfv. destruct Hfv as [Hfv|[<-|[]]].
+      * eapply inst_valid_persist; eauto.
+      * intros i x Hz. apply zassoc_In in Hz.
+        destruct (call_records _ _ _ _ HI E i x Hz) as [fid [p [A [B C]]]]. eauto.
+  - destruct (assign_fields st) as [s1 e1] eqn:E. inversion H; subst s1 r. clear H.
+    destruct HI as [W HL]. destruct (assign_fields_inv _ _ _ _ W HL E) as [_ [_ [Hins _]]].
+    intros fv Hfv. rewrite Hins in Hfv. eapply inst_valid_persist; eauto.
+Qed.
+
+Lemma reachable_insts_valid st : reachable st -> insts_valid st.
+Proof.
+  induction 1.
+  - intros fv [<-|[]] i x Hz. discriminate.
+  - eapply step_insts_valid; eauto. now apply reachable_inv.
+Qed.
+
+(* on a laid-out reachable bit field the values of every instance fit their fields *)
+Lemma reachable_values_fit st fv :
+  reachable st -> all_placed (s_len st) (s_tree st) (s_store st) -> In fv (s_insts st) ->
+  values_fit (s_tree st) (s_store st) fv.
+Proof.
+  intros R HP Hfv i f x Hin Hz.
+  pose proof (reachable_inv _ R) as [W [_ [_ HM]]].
+  destruct (reachable_insts_valid _ R _ Hfv i x Hz) as [fid [p [Hg [Hp Hx]]]].
+  assert (f = fid).
+  { eapply enabled_names_unique; eauto. now apply get_field_enabled. }
+  subst fid.
+  destruct (HP i f (enabled_in_all _ _ _ _ Hin)) as [q [l [Hr _]]].
+  exists q, l. split; [exact Hr|].
+  unfold frange in Hr. destruct (f_start (sget (s_store st) f)); [|discriminate].
+  destruct (f_len (sget (s_store st) f)) as [l'|] eqn:El; [|discriminate]. inversion Hr; subst l'.
+  destruct (HM _ Hp) as [_ M2]. destruct (M2 _ El) as [_ M3]. unfold e_fid in M3. simpl in M3. lia.
+Qed.
